@@ -13,6 +13,7 @@
 package main
 
 import (
+	"encoding/json"
 	"errors"
 	"flag"
 	"fmt"
@@ -795,7 +796,20 @@ func main() {
 			fmt.Fprintln(os.Stderr, err)
 			os.Exit(2)
 		}
-		for _, l := range strings.Split(strings.TrimSpace(string(b)), "\n") {
+		lines := strings.Split(strings.TrimSpace(string(b)), "\n")
+		if strings.HasPrefix(strings.TrimSpace(string(b)), "{") { // a replay file written by ./check
+			var rf struct {
+				Violations    []vh.Case `json:"violations"`
+				Disagreements []vh.Case `json:"disagreements"`
+			}
+			if err := json.Unmarshal(b, &rf); err == nil {
+				lines = nil
+				for _, c := range append(rf.Violations, rf.Disagreements...) {
+					lines = append(lines, c.Op)
+				}
+			}
+		}
+		for _, l := range lines {
 			if c, doc, ok := parseProto(l); ok {
 				if !c.capture {
 					c.capture = true
@@ -866,6 +880,9 @@ func main() {
 		}
 	}
 	rep.Compared = compared
+	if rep.Cases == nil {
+		rep.Cases = []vh.Case{} // "cases": [] rather than null for ./check
+	}
 	if err := rep.Write(*out); err != nil {
 		fmt.Fprintln(os.Stderr, err)
 		os.Exit(2)
